@@ -10,3 +10,4 @@ git -C /repo checkout -- . ; git -C /repo status --short | head -3
 ( cd /verif/harness && GOFLAGS=-mod=mod GOPROXY=off GOSUMDB=off GOTOOLCHAIN=local go build -o bin/trace ./cmd/trace )
 # evidence written while /repo was mutated must not stay: restore the committed files
 git -C /verif checkout -- evidence/ 2>/dev/null
+git -C /verif checkout -- lean/ServiceModel/Keys/Generated.lean 2>/dev/null
